@@ -285,7 +285,24 @@ func (m *Decisions) AfterScan(ctx *h.ScanCtx) []h.Violation {
 		}
 
 		if ctx.Faulted {
-			continue // the remaining clauses are stated for fault-free scans
+			// the remaining clauses are stated for fault-free scans; a scan whose only injected failures
+			// hit removal calls (terminate / Kubernetes delete) still has to taint by the band rule
+			if d.Class == "fast" || d.Class == "slow" {
+				onlyRemoval := true
+				for _, e := range ctx.Entries {
+					if e.Err == "injected" && e.Op != sim.OpTerminate && e.Op != sim.OpK8sDelete {
+						onlyRemoval = false
+					}
+				}
+				if onlyRemoval && len(g.U) >= g.Min && d.Edge == "" && !d.Starve && !d.MaxAge && !g.Spec.Opts.ScaleOnStarve {
+					ctx.H.Cov["c06.band-checked-under-removal-faults"]++
+					if len(o.adds)+o.noopAdds != d.TaintWant {
+						add("C06", "C06/band/"+d.Class+"/under-removal-failure", fmt.Sprintf("group %s: a terminate / delete call failed in this scan; utilisation is in the %s band with |U|=%d min=%d: expected %d taints, saw %d",
+							g.Name, d.Class, len(g.U), g.Min, d.TaintWant, len(o.adds)))
+					}
+				}
+			}
+			continue
 		}
 
 		// ---- C03: restore clause
@@ -350,7 +367,7 @@ func (m *Decisions) AfterScan(ctx *h.ScanCtx) []h.Violation {
 		// ---- C06: bands
 		if len(g.U) >= g.Min && d.Class != "under-min" && d.Class != "over-max" && d.Class != "empty" && d.Class != "undefined" && d.Class != "restore" {
 			canAdd := len(g.T) > 0 || B-g.CloudDesired > 0
-			added := len(o.removes) + len(o.incr)
+			added := len(o.removes) + o.noopRemoves + len(o.incr)
 			starveSure, starveMaybe := starveCertainty(g, d)
 			maxAgeMaybe := maxAgePossible(g, ctx.Start)
 			trigger := starveSure || d.MaxAge
